@@ -80,7 +80,6 @@ Example c12_multi_python_nonvacuous_plain :
     y_plan Python ws_py_plain = Some plan /\
     map op_crate plan = [lit "alpha"; lit "beta"] /\
     forallb (fun p => c12_py_dom y_py_cfg (items_of (op_data p))) plan = true /\
-    forallb (fun p => y_none (c12_py_known y_py_cfg (op_data p))) plan = true /\
     generate_crates (py_multi_gen uc_exec y_py_cfg) py_empty_state plan =
       ([(lit "alpha.py", Writer.Generated t_alpha); (lit "beta.py", Writer.Generated y_beta_plain_py)], Ok st_fin) /\
     py_type_variables st_fin = [lit "T"] /\ py_custom_types st_fin = [lit "datetime"] /\
@@ -100,7 +99,6 @@ Example c12_multi_python_nonvacuous_again :
     y_plan Python ws_py_again = Some plan /\
     map op_crate plan = [lit "alpha"; lit "beta"] /\
     forallb (fun p => c12_py_dom y_py_cfg (items_of (op_data p))) plan = true /\
-    forallb (fun p => y_none (c12_py_known y_py_cfg (op_data p))) plan = true /\
     generate_crates (py_multi_gen uc_exec y_py_cfg) py_empty_state plan =
       ([(lit "alpha.py", Writer.Generated t_alpha); (lit "beta.py", Writer.Generated t_beta)], Ok st_fin) /\
     py_type_variables st_fin = [lit "T"; lit "U"] /\
@@ -155,7 +153,7 @@ Example c12_multi_python_earlier_dom_needed :
   exists plan p_alpha p_beta t_alpha st1 uses defs,
     y_plan Python ws_py_taint = Some plan /\ plan = [p_alpha; p_beta] /\
     c12_py_dom y_py_cfg (items_of (op_data p_alpha)) = false /\
-    c12_py_dom y_py_cfg (items_of (op_data p_beta)) = true /\ c12_py_known y_py_cfg (op_data p_beta) = None /\
+    c12_py_dom y_py_cfg (items_of (op_data p_beta)) = true /\
     py_generate_multi uc_exec y_py_cfg py_empty_state (op_data p_alpha) = Ok (t_alpha, st1) /\
     c12_py_state_ok st1 = false /\
     c12_py_observe_multi uc_exec y_py_cfg st1 (op_data p_beta) = Ok (uses, defs) /\
